@@ -1,78 +1,78 @@
 (* C03 — A connection delivers every accepted packet exactly once, in order, up to Close.
    Theorems about the repaired connection model (C03/Model.v, variant [repaired] = the tree
-   after the fix commits), over EVERY schedule (any list of choices), any number of
-   senders / closers, any packets, any queue capacities, any peer behaviour.
-   Only statements here; proofs are in InvA.v / Proofs.v. *)
+   after the fix commits), over EVERY schedule (any list of choices; a disabled choice is a
+   no-op), any number of senders / closers, any packets, any queue and kernel-buffer
+   capacities, any peer input, with or without each pump.  Only statements here; the
+   proofs are in InvA.v / Proofs.v / Refute.v. *)
 From Coq Require Import ZArith List Bool Arith Lia.
-From FV Require Import C03.Model C03.Base C03.InvA C03.Proofs.
+From FV Require Import C03.Model C03.Base C03.InvA C03.Proofs C03.Refute.
 Import ListNotations.
 
-Section C03.
-  (* arbitrary configuration: capacities, error channel nil or not, which pumps Go() started,
-     the senders' packet lists, the Close/ForceClose callers, what the peer sends,
-     initial content of the shared inbound / error channels *)
-  Variables (oc kc ic ec : nat) (en hw hr : bool) (sds : list (list pkt)) (cls : list (bool * Z))
-            (input : list inp) (inq0 : list pkt) (errq0 : list Z).
-  Let s0 := init oc kc ic ec en hw hr sds cls input inq0 errq0.
-
-  (* "reaches the peer exactly once and in acceptance order, whatever the outbound queue size,
-     the packet sizes ... or how slowly the peer reads": at every reachable state what is on
-     the wire is a prefix of the accepted sequence (encoder-refused packets removed) *)
-  Theorem c03_fifo_once : forall cs, let s := run repaired s0 cs in
-    prefix (wire s) (filter pok (accepted s)) /\
-    (NoDup (map pid (accepted s)) -> NoDup (map pid (wire s))).
-  Proof.
-    intros cs s. pose proof (run_inv input hw cs s0 (init_inv _ _ _ _ _ _ _ _ _ _ _ _)) as I.
-    split; [exact (inv_fifo _ _ _ I)|exact (inv_nodup _ _ _ I)].
-  Qed.
-
-  (* "the graceful close returns only after those packets are on the wire and then ends the
-     write side, so the peer sees end-of-stream right after the last of them": when a Close()
-     that won the CAS has returned, FIN is set, both pumps are gone (nothing is written after
-     FIN), and every packet accepted before the CAS has been handled by the writer — on an
-     unbroken socket every encodable one is on the wire *)
-  Theorem c03_close_flushes : forall cs j cl, let s := run repaired s0 cs in
-    hw = true ->
-    nth_error (closers s) j = Some cl -> graceful cl = true -> cp cl = CRet true ->
-    fin s = true /\ wp s = WExited /\ liver (rp s) = 0 /\
-    prefix (acc_cas s) (gone s) /\
-    (wbroken s = false -> prefix (filter pok (acc_cas s)) (wire s)).
-  Proof.
-    intros cs j cl s Hw Hn Hg Hc.
-    pose proof (run_inv input hw cs s0 (init_inv _ _ _ _ _ _ _ _ _ _ _ _)) as I.
-    destruct (inv_close_flushes _ _ _ _ _ I Hn Hg Hc) as (F & _ & R & X).
-    destruct (X Hw) as (W & P1 & P2). repeat split; auto.
-  Qed.
-
-  (* once FIN is set the wire never changes again: no pump is alive *)
-  Theorem c03_fin_is_last : forall cs, let s := run repaired s0 cs in
-    fin s = true -> livew (wp s) = 0 /\ liver (rp s) = 0.
-  Proof.
-    intros cs s. exact (inv_fin_final _ _ _ (run_inv input hw cs s0 (init_inv _ _ _ _ _ _ _ _ _ _ _ _))).
-  Qed.
-
-  (* "Frames arriving from the peer are handed to the inbound queue exactly once, in wire
-     order ... " up to the first read error; at most the one frame in hand is not delivered *)
-  Theorem c03_inbound_once : forall cs, let s := run repaired s0 cs in
-    prefix (delivered s) (frames_prefix input) /\
-    (exists l, rframes s = delivered s ++ l /\ length l <= 1) /\
-    prefix (rframes s) (frames_prefix input).
-  Proof.
-    intros cs s. exact (inv_inbound _ _ _ (run_inv input hw cs s0 (init_inv _ _ _ _ _ _ _ _ _ _ _ _))).
-  Qed.
-
-  (* "the sent/received packet and byte counters equal what actually crossed the wire" *)
-  Theorem c03_counters : forall cs, let s := run repaired s0 cs in
-    psent s = (Z.of_nat (length (wire s)) - wpendn (wp s))%Z /\
-    bsent s = (sumsz (wire s) - wpendsz (wp s))%Z /\
-    precv s = Z.of_nat (length (rframes s)) /\ brecv s = sumsz (rframes s).
-  Proof.
-    intros cs s. exact (inv_counters _ _ _ (run_inv input hw cs s0 (init_inv _ _ _ _ _ _ _ _ _ _ _ _))).
-  Qed.
-End C03.
-
+(* "reaches the peer exactly once and in acceptance order, whatever the outbound queue size,
+   the packet sizes ... or how slowly the peer reads": at every reachable state what is on
+   the wire is a prefix of the accepted sequence (encoder-refused packets removed) *)
+Theorem c03_fifo_once : forall oc kc ic ec en hw hr sds cls input inq0 errq0 cs,
+  let s := run repaired (init oc kc ic ec en hw hr sds cls input inq0 errq0) cs in
+  prefix (wire s) (filter pok (accepted s)) /\
+  (NoDup (map pid (accepted s)) -> NoDup (map pid (wire s))).
+Proof. exact fifo_once. Qed.
 Print Assumptions c03_fifo_once.
+
+(* "the graceful close returns only after those packets are on the wire and then ends the
+   write side, so the peer sees end-of-stream right after the last of them": when a Close()
+   that won the CAS has returned, FIN is set, both pumps are gone, and every packet accepted
+   before the CAS has been handled by the writer — on an unbroken socket every encodable one
+   is on the wire *)
+Theorem c03_close_flushes : forall oc kc ic ec en hw hr sds cls input inq0 errq0 cs j cl,
+  let s := run repaired (init oc kc ic ec en hw hr sds cls input inq0 errq0) cs in
+  hw = true ->
+  nth_error (closers s) j = Some cl -> graceful cl = true -> cp cl = CRet true ->
+  fin s = true /\ wp s = WExited /\ liver (rp s) = 0 /\
+  prefix (acc_cas s) (gone s) /\
+  (wbroken s = false -> prefix (filter pok (acc_cas s)) (wire s)).
+Proof. exact close_flushes. Qed.
 Print Assumptions c03_close_flushes.
+
+(* once FIN is set no pump is alive: the wire never changes again, FIN is last *)
+Theorem c03_fin_is_last : forall oc kc ic ec en hw hr sds cls input inq0 errq0 cs,
+  let s := run repaired (init oc kc ic ec en hw hr sds cls input inq0 errq0) cs in
+  fin s = true -> livew (wp s) = 0 /\ liver (rp s) = 0.
+Proof. exact fin_is_last. Qed.
 Print Assumptions c03_fin_is_last.
+
+(* "Frames arriving from the peer are handed to the inbound queue exactly once, in wire
+   order ..." up to the first read error; at most the one frame in hand is not delivered *)
+Theorem c03_inbound_once : forall oc kc ic ec en hw hr sds cls input inq0 errq0 cs,
+  let s := run repaired (init oc kc ic ec en hw hr sds cls input inq0 errq0) cs in
+  prefix (delivered s) (frames_prefix input) /\
+  (exists l, rframes s = delivered s ++ l /\ length l <= 1) /\
+  prefix (rframes s) (frames_prefix input).
+Proof. exact inbound_once. Qed.
 Print Assumptions c03_inbound_once.
+
+(* "the sent/received packet and byte counters equal what actually crossed the wire"
+   (wpendn/wpendsz: the one frame already written whose counter update is the writer's next step) *)
+Theorem c03_counters : forall oc kc ic ec en hw hr sds cls input inq0 errq0 cs,
+  let s := run repaired (init oc kc ic ec en hw hr sds cls input inq0 errq0) cs in
+  psent s = (Z.of_nat (length (wire s)) - wpendn (wp s))%Z /\
+  bsent s = (sumsz (wire s) - wpendsz (wp s))%Z /\
+  precv s = Z.of_nat (length (rframes s)) /\ brecv s = sumsz (rframes s).
+Proof. exact counters. Qed.
 Print Assumptions c03_counters.
+
+(* the code as first found (variant [legacy]) violates the flush sentence: witness schedule
+   (3 accepted, writer sees done with all queued, 2 written, Close returns, 1 lost) *)
+Theorem c03_close_flushes_legacy_refuted :
+  let s := run legacy flush_init flush_sched in
+  map cp (closers s) = [CRet true] /\ fin s = true /\ wbroken s = false /\ panic s = false /\
+  acc_cas s = [p1; p2; p3] /\ wire s = [p1; p2] /\ outq s = [p3].
+Proof. exact legacy_flush_drops. Qed.
+Print Assumptions c03_close_flushes_legacy_refuted.
+
+(* non-vacuity: a schedule of the repaired model in which the hypotheses of c03_close_flushes
+   are met (Close won and returned) and all three packets are on the wire *)
+Example c03_example :
+  let s := run repaired flush_init (flush_sched ++ [Writer WDeq; Writer WStep; Writer WStep; Writer WFlushEnd; Writer WStep;
+                                                     Closer 0; Closer 0; Closer 0; Closer 0; Closer 0]) in
+  map cp (closers s) = [CRet true] /\ fin s = true /\ wire s = [p1; p2; p3].
+Proof. exact repaired_flush_same_schedule. Qed.
